@@ -232,6 +232,7 @@ func (ds *Dataset) StoreEntities(entities []*Entity) (Error error) {
 	defer func() {
 		_ = ds.store.statsdClient.Timing("ds.writeLock.time", time.Since(writeLockStart), tags, 1)
 		ds.WriteLock.Unlock()
+		verifhook.Point("store.unlocked", ds.ID)
 	}()
 
 	// need this to ensure time moves forward in high perf environments.
